@@ -22,13 +22,23 @@ void ::sqf::parser::sqf::formatter::formatter::prettify(const ::sqf::parser::sqf
     case bison::astkind::EXP8:
     case bison::astkind::EXP9:
     {
+        // Parentheses leave no node in the tree: they have to be written again wherever the
+        // operands would group differently without them (a looser operator as operand, or
+        // one of the same level on the right of this left-associative operator).
+        auto is_binary = [](const bison::astnode& n) { return n.kind >= bison::astkind::EXP0 && n.kind <= bison::astkind::EXP9; };
+        bool paren_left = is_binary(node.children[0]) && node.children[0].kind < node.kind;
+        bool paren_right = is_binary(node.children[1]) && node.children[1].kind <= node.kind;
+        if (paren_left) buff << "(";
         this->prettify(node.children[0], depth, buff);
+        if (paren_left) buff << ")";
         buff << " ";
         auto s = std::string(node.token.contents);
         std::transform(s.begin(), s.end(), s.begin(), [](char& c) { return (char)std::tolower((int)c); });
         buff << s;
         buff << " ";
+        if (paren_right) buff << "(";
         this->prettify(node.children[1], depth, buff);
+        if (paren_right) buff << ")";
     }
     break;
     case bison::astkind::EXPU:
@@ -38,16 +48,15 @@ void ::sqf::parser::sqf::formatter::formatter::prettify(const ::sqf::parser::sqf
         buff << s;
         buff << " ";
 
-        if (s == "if" && node.children[0].token.contents != "!")
-            buff << "(";
-        else if (s == "!")
+        // A unary operator binds tighter than any binary one: a binary operand needs its parentheses back
+        bool paren = (s == "if" && node.children[0].token.contents != "!") || s == "!"
+            || (node.children[0].kind >= bison::astkind::EXP0 && node.children[0].kind <= bison::astkind::EXP9);
+        if (paren)
             buff << "(";
 
         this->prettify(node.children[0], depth, buff);
 
-        if (s == "if" && node.children[0].token.contents != "!")
-            buff << ")";
-        else if (s == "!")
+        if (paren)
             buff << ")";
     }
     break;
